@@ -495,6 +495,9 @@ def run(repo, rep):
         'fires is decided from the ABC facts of each kind, constructors '
         'from the option predicates. The verdict per shape x options is '
         'compared with the kind the property demands.')
+    rep.rule('R10e', 'NO-IDENTITY-CACHE: the converters (and what they call) '
+             'keep no table keyed by id() of a source object')
+    check_converters_keep_no_identity_cache(repo, rep)
     facts = shapes.Facts(repo)
     depth = 3 if rep.tier == 'thorough' else 2
     uni = unimod.Universe(repo)
@@ -504,8 +507,5 @@ def run(repo, rep):
     n, nshapes = check_finaliser(repo, rep, facts, depth, extra)
     nin = check_input(repo, rep, facts, 2)
     check_always_finalised(repo, rep, uni)
-    rep.rule('R10e', 'NO-IDENTITY-CACHE: the converters (and what they call) '
-             'keep no table keyed by id() of a source object')
-    check_converters_keep_no_identity_cache(repo, rep)
     rep.count(shapes=nshapes, option_combinations=len(OPTS),
               finaliser_obligations=n, input_obligations=nin, depth=depth)
